@@ -103,6 +103,8 @@ class Check:
         return 0
 
     def write_evidence(self, nviol):
+        if os.environ.get("VF_NO_EVIDENCE"):
+            return      # runs against deliberately modified trees (seeds, rewrites) must not overwrite the evidence of /repo
         rules = sorted({i[0] for i in self.instances})
         distinct = len({i[1] for i in self.instances})
         per_rule = {r: self.count(r) for r in rules}
